@@ -197,9 +197,14 @@ def setAud (aud : List String) (m : List (String × Wire)) : List (String × Wir
   | [a] => setKey "aud" (.str a) m
   | l => setKey "aud" (.arr (l.map Wire.str)) m
 
+/-- the members of `Claims.Raw` (a nil map has none) -/
+def rawKVs : Wire → List (String × Wire)
+  | .obj kvs => kvs
+  | _ => []
+
 /-- the map handed to json.Marshal, or the first recorded error -/
 def claimsMap (c : Claims) : Outcome (List (String × Wire)) :=
-  let m0 : List (String × Wire) := match c.raw with | .obj kvs => kvs | _ => []
+  let m0 : List (String × Wire) := rawKVs c.raw
   let m1 := if c.iss ≠ "" then setKey "iss" (.str c.iss) m0 else m0
   let m2 := if c.sub ≠ "" then setKey "sub" (.str c.sub) m1 else m1
   let m3 := setAud c.aud m2
